@@ -218,7 +218,7 @@ func (cs *Contracts) parseFile(root, file string) error {
 			if word == "regex" {
 				cs.RegexDefs[name] = re
 			} else {
-				cs.HoleLangs[name] = re
+				cs.HoleLangs[pkg+"|"+name] = re
 			}
 			cur = nil
 			lastClause = nil
